@@ -1,12 +1,19 @@
 """C30 — declaration and type-string errors are reported as cffi errors.
 
-  regen  : coq/C09/Gen.v (shared with C09) from cparser.py, fail closed
+  regen  : coq/C09/Gen.v (shared with C09) from cparser.py, fail closed; coq/C30/Gen.v (c30_regen.py): facts of
+           _r_extern_python / _preprocess_extern_python and the except-tuple of _put_back_line_directives.replace
   expr   : expression trees incl. unsupported operators, negative shift counts, malformed literals, division by
            zero, identifiers -> `enum e { A = EXPR };` on the real parser; exception class vs the Coq model py_eval
   macro  : random '#define X <text>' values -> real _r_int_literal / cdef vs the Coq models r_int_literal, process_macro
   fuzz   : grammar-based cdefs and type strings with token- and character-level mutations through FFI().cdef() and
            FFI().typeof(); any exception outside {CDefError, FFIError, NotImplementedError, VerificationError,
            VerificationMissing} is a violation (see `verdict_py` for the reading on back-end errors)
+  trunc  : every prefix of valid cdefs / type strings cut after each token, with and without trailing white space
+  extpy  : texts through cparser._preprocess_extern_python vs the Coq model C30.ExternPy.extern_python (whole output)
+  capi   : strings that are not UTF-8 encodable (lone surrogates), with NULs, non-BMP characters, very long strings,
+           bytes-like objects and str subclasses through typeof/new/cast/sizeof/alignof/getctype/offsetof/callback/
+           from_buffer, lib attribute look-ups, integer_const and addressof(lib, name) of a compiled FFI (ASan+UBSan build);
+           a dying interpreter is attributed to one input by re-running that input alone
   ctype  : grammar-based and byte-mutated strings through typeof() of compiled-style FFIs (parse_c_type.c) with the
            ASan+UBSan build of the back end; any exception outside {ffi.error, TypeError, ValueError}, any crash or
            sanitizer report is a violation
@@ -18,6 +25,7 @@ import re
 from lib import vlib
 from lib.vlib import cz, cstr
 from props import c09_regen
+from props import c30_regen
 from props import c09 as C09
 from props import c31 as C31
 
@@ -210,6 +218,75 @@ def gen_fuzz(ctx):
     return out
 
 
+TRUNC_CDEFS = [
+    'int before(int);\nextern "Python" int cb(int, int);\n',
+    'extern "Python+C" int cb2(int);\nextern "C+Python" long cb3(void);',
+    'extern "Python" { int cb4(int); int cb5(long); }\nint after(void);',
+    'extern  "Python + C"  {\n  void cb6(void);\n}\n',
+    '#define X 42\n#define Y ...\ntypedef struct s { int a; char b[...]; ...; } s_t;\n',
+    'typedef int foo_t;\ntypedef foo_t (*fn_t)(foo_t, ...);\nstruct s2 { foo_t a:3; int b[4]; };\n',
+    'enum e { A, B = 1 << 3, C = ..., ... };\nstatic const int K;\nextern int g[...];\n',
+    'union u { int x; float y; };\nint f(union u *, int[], char (*)[3]);\n',
+    'typedef ... opaque_t;\ntypedef int... myint_t;\ntypedef float... myflt_t;\nint __stdcall w(int);\n',
+    '# 12 "foo.h"\nint a; /* c */ int b; // d\n#line 5\nstatic int (*fp)(void);\n',
+    'extern "Python" int (*weird(int))(long);\n#pragma pack(1)\nstruct p { char c; };\n',
+]
+TRUNC_TAILS = ["", " ", "\n", " \t\n \n"]
+
+
+def gen_truncations(ctx):
+    """every prefix of valid cdefs (and of the type strings) cut after each token -- in particular right after
+    `extern "Python"`, `extern "Python+C"`, `extern "C+Python"`, `extern "Python" {`, `#define X`, `typedef`,
+    `struct s {`, `...`, `[`, `(` -- with and without trailing white space / newlines"""
+    out, seen = [], set()
+
+    def add(api, text):
+        if (api, text) not in seen:
+            seen.add((api, text))
+            out.append(dict(kind="fuzz", api=api, text=text, trunc=True))
+    for src in TRUNC_CDEFS:
+        for m in re.finditer(r"[A-Za-z_0-9]+|\"[^\"\n]*\"|\.\.\.|\S", src):
+            for tail in TRUNC_TAILS:
+                add("cdef", src[:m.end()] + tail)
+            if m.group().startswith('"'):       # inside the string literal as well
+                add("cdef", src[:m.start() + 1])
+                add("cdef", src[:m.end() - 1])
+    for src in TYPES:
+        for m in re.finditer(r"[A-Za-z_0-9]+|\.\.\.|\S", src):
+            add("typeof", src[:m.end()])
+            add("typeof", src[:m.end()] + " ")
+    return out
+
+
+EXTPY_ATOMS = ['extern', '"Python"', '"Python+C"', '"C+Python"', '"Python +  C"', '"C\t+\nPython"', '"', 'Python', 'C', '+', '{', '}',
+               ';', ' ', '  ', '\n', '\t', '\r', '\x0c', '\x0b', '\x1c', '\x1f', '\x85', '\xa0', '\u2003', '\u2028', '\u3000', 'int f(int)',
+               'x', '_', '9', '\xe9', '\xb5', '\xd7', '\xf7', '\xaa', '\xb2', '\xbc', '.', '"C"', '"Python', 'Python"', 'externx', 'xextern',
+               'extern"Python"', 'extern "Python" {', 'extern "Python+C" int g(void);', '"Python+"', '"+C"', '"PythonC"', '"C+C"']
+
+
+def gen_extpy(ctx):
+    """texts for the correspondence C30.ExternPy.extern_python vs cparser._preprocess_extern_python: every truncation of the
+    valid cdefs (the marker at the very end, followed by white space only, by newlines only), and random concatenations
+    of marker pieces, braces, semicolons and the white-space / word characters of the model's \\s and \\w tables"""
+    rng, out, seen = ctx.rng, [], set()
+
+    def add(t):
+        if t not in seen and len(t) < 200:
+            seen.add(t)
+            out.append(dict(kind="extpy", text=t))
+    for src in TRUNC_CDEFS[:4]:
+        for n in range(len(src) + 1):
+            add(src[:n])
+    for mk in ('extern "Python"', 'extern"Python+C"', 'extern  "C + Python"', 'a extern "Python"', '_extern "Python"', '\xe9extern "Python"',
+               '\xd7extern "Python"'):
+        for tail in ("", " ", "\n", " \n", "\n ", "\n\n", " \n \n", "\t", "\r", "\x85", "\xa0\n", "{", " {", "{}", " { }", "{ {", "{ { }", "{ int f(int) { } }", "{ } {", "{;}", ";", "x", " x;",
+                     "\n;", "{\n", "{ int f(int); } extern \"Python\"", "int f(int); extern \"Python+C\" ", "int f(int); extern \"Python\" {"):
+            add(mk + tail)
+    for _ in range(ctx.n(600, 20000)):
+        add("".join(rng.choice(EXTPY_ATOMS) for _ in range(rng.randrange(1, 9))))
+    return out
+
+
 C_KEYWORDS = {"_Bool", "__cdecl", "__stdcall", "_Complex", "char", "const", "double", "enum", "float", "int", "long", "short",
               "signed", "struct", "union", "unsigned", "void", "volatile"}
 
@@ -314,7 +391,7 @@ def gen_capi(ctx):
     # the defect's witness, literally
     add("typeof", [("\udc80", 1)], "str", 0)
     # random: base type/name with 1-3 specials inserted anywhere, in every form
-    for _ in range(ctx.n(1500, 30000)):
+    for _ in range(ctx.n(900, 30000)):
         if rng.random() < 0.7:
             api, base = rng.choice(TYPE_APIS), rng.choice(SMALL_TYPES)
         else:
@@ -334,7 +411,7 @@ def gen_capi(ctx):
                 enc = "utf-8"
             add(api, [(text, 1)], rng.choice(BYTES_FORMS), 1 if needs_tables(base) else rng.randrange(2), enc)
     # very long strings (the parser's input is never copied into a fixed buffer; the error message is truncated)
-    for n in (1000, 70000, 1100000):
+    for n in ((1000, 70000, 1100000) if ctx.thorough else (1000, 70000)):
         for api in ("typeof", "sizeof", "cast", "getctype", "getctype2", "libattr", "integer_const", "offsetof2", "callback"):
             ffi = 1
             add(api, [("int", 1), (" ", n)], "str", ffi)
@@ -427,7 +504,7 @@ def generate(ctx):
         e = gen_bad_expr(rng, rng.choice([0, 1, 1, 2, 2, 3, 4, 5]))
         if shift_ok(e):
             cases.append(dict(kind="expr", e=e))
-    return cases + gen_macros(ctx) + gen_fuzz(ctx) + gen_ctype(ctx) + gen_complexity(ctx) + gen_capi(ctx)
+    return cases + gen_macros(ctx) + gen_fuzz(ctx) + gen_truncations(ctx) + gen_extpy(ctx) + gen_ctype(ctx) + gen_complexity(ctx) + gen_capi(ctx)
 
 
 # ----------------------------------------------------------------------------- verdicts
@@ -586,7 +663,9 @@ def run_isolating(ctx, s, cases, env, progress, what):
                                 timeout=600, extra_env=env)
         alone = out1 is None or not isinstance(out1["results"], list)
         ctx.hist("process_death", "confirmed in isolation" if alone else "only inside the batch")
-        tail = ((p1.stderr if alone else p.stderr) or "")[-1800:]
+        err = (p1.stderr if alone else p.stderr) or ""
+        k = err.rfind("ERROR: AddressSanitizer")
+        tail = err[k:k + 1800] if k >= 0 else err[-1800:]
         ctx.violation(todo[i], "%s: %s: the interpreter died (rc=%s%s)\n%s" % (
             what, ctype_label(todo[i]), p1.returncode if alone else p.returncode,
             "; reproduced with this input alone in a fresh process" if alone else
@@ -607,6 +686,8 @@ def capi_verdict(c, r):
     if exc == "AttributeError" and c["api"] in ("libattr", "libhas", "integer_const", "addressof"):
         return None
     if exc == "KeyError" and c["api"] in ("offsetof", "offsetof2", "offsetof3"):
+        return None
+    if exc == "NotImplementedError" and c["api"] == "callback":      # valid but unsupported: callback type with '...'
         return None
     key = ctype_key(r)
     if (exc == "SystemError" and c["api"] in ("libattr", "libhas") and "returned a result with an exception set" in (r.get("msg") or "")
@@ -672,6 +753,44 @@ def run_ctypes(ctx, ctypes):
             key = classify_report(rep, ctypes[i]) if ctypes[i]["kind"] == "ctype" else None
             ctx.hist("sanitizer_reports", key or "unknown")
             ctx.violation(ctypes[i], "%s on a compiled FFI: sanitizer report\n%s" % (ctype_label(ctypes[i]), rep[:1500]), key=key)
+
+
+EXTPY_CODES = {"CDefError": 1, "NotImplementedError": 2, "FFIError": 3, "ValueError": 4, "IndexError": 5, "KeyError": 6,
+               "TypeError": 8, "AssertionError": 9}
+
+
+def extpy_pairs(cases, res):
+    return [(cstr(c["text"]) if c["text"] else "(@nil N)",
+             "(%s, %s)" % (cz(0 if r["exc"] is None else EXTPY_CODES.get(r["exc"], 98)),
+                           (cstr(r["out"]) if r["out"] else "(@nil N)")))
+            for c, r in zip(cases, res)]
+
+
+def run_extpy(ctx, cases):
+    """correspondence C30.ExternPy.extern_python (over the regenerated C30/Gen.v) vs the real _preprocess_extern_python:
+    the whole output text or the exception class; an exception class outside {CDefError, NotImplementedError} from the
+    real function is, in addition, a violation of the property (it escapes from cdef() unchanged)"""
+    s = ctx.scratch()
+    out, p = s.run_worker("c30_worker.py", dict(op="extpy", cases=cases), timeout=1200)
+    if out is None:
+        ctx.violation(cases[0], "extpy worker failed (rc=%s): %s" % (p.returncode, p.stderr[-1200:]))
+        return
+    res = out["results"]
+    for c, r in zip(cases, res):
+        ctx.count()
+        ctx.hist("extpy_outcome", r["exc"] or "ok")
+        if r["exc"] or r["out"] != c["text"]:
+            ctx.nontrivial(("extpy", c["text"]))
+        if r["exc"] not in (None, "CDefError", "NotImplementedError"):
+            ctx.violation(c, "_preprocess_extern_python(%r) raises %s (escapes from FFI.cdef())" % (c["text"], r["exc"]))
+    bad, outs, err = vlib.coq_mismatches(["C30.Gen", "C30.ExternPy"], "extern_python_out", "pair_eqb Z.eqb (list_eqb N.eqb)",
+                                         extpy_pairs(cases, res), shard=800)
+    if err:
+        ctx.obligation_broken("C30 model evaluation (extern_python)", err)
+    for k in bad:
+        ctx.mismatch(cases[k], "model extern_python = %s, implementation: %s for %r" % (
+            outs.get(k), res[k]["exc"] or ascii(res[k]["out"]), cases[k]["text"]),
+            "C30.ExternPy.extern_python vs cparser._preprocess_extern_python")
 
 
 def label(c):
@@ -748,6 +867,9 @@ def evaluate(ctx, cases):
                 ctx.mismatch(macros[k], "model (r_int_literal, process_macro) = %s, implementation: match=%r cdef=%r for %r" % (
                     outs.get(k), out2["results"][k], mres[k]["exc"] or "ok", macros[k]["text"]),
                     "C30.Model.r_int_literal/process_macro vs cparser._r_int_literal/_process_macros")
+    extpy = [c for c in cases if c["kind"] == "extpy"]
+    if extpy:
+        run_extpy(ctx, extpy)
     if ctypes:
         run_ctypes(ctx, ctypes)
     for c in (exprs[:1] + macros[:1] + fuzz[15:17] + ctypes[:2] + [c for c in ctypes if c["kind"] == "capi"][:2]):
@@ -756,6 +878,7 @@ def evaluate(ctx, cases):
 
 def regen(ctx):
     c09_regen.regen(ctx, vlib.COQ, vlib.REPO)
+    c30_regen.regen(ctx, vlib.COQ, vlib.REPO)
 
 
 def run(ctx):
@@ -764,7 +887,13 @@ def run(ctx):
                        "random '#define X <text>' over a literal-like alphabet; fuzz: random valid cdefs and type strings with "
                        "1-3 token-level or character-level mutations, and random token soups; ctype: type strings with token, "
                        "character and byte mutations (incl. NUL and bytes >= 128, as bytes and as str) and very long / deeply "
-                       "nested strings through _cffi_backend.FFI().typeof and a compiled module's ffi under ASan+UBSan. "
+                       "nested strings through _cffi_backend.FFI().typeof and a compiled module's ffi under ASan+UBSan; trunc: every "
+                       "token-boundary prefix of 11 valid cdefs and of the type strings, x 4 white-space tails; extpy: character "
+                       "prefixes of cdefs with extern \"Python\" markers, markers followed by white-space/newline/brace tails, random "
+                       "soups of marker pieces; capi: 23 special code-point sequences (lone high/low surrogates, reversed pairs, "
+                       "NUL, non-BMP, Latin-1, BOM, line separators) alone/before/after/inside valid types and names x 16 entry "
+                       "points x {str, str subclass, str subclass with failing __str__/encode, bytes, bytes subclass, bytearray, "
+                       "memoryview}, and strings of 1000..1.1M characters. "
                        "Non-trivial = the input is rejected (an error path is exercised) or is an accepted mutated type; "
                        "distinct by text.")
     ctx.assumptions += [
@@ -773,23 +902,37 @@ def run(ctx):
         "parse_c_type.c: the memory-safety theorems are imported from coq/C07 (model tied to the unmodified C file by ./check C07); "
         "pycparser, the rest of cparser.py, ffi_obj.c (_ffi_type) and realize_c_type.c are not modelled: fuzzing only "
         "(sanitizer-instrumented back end, PYTHONMALLOC=debug child, complexity-limit stream)",
+        "C30/Gen.v regenerated from cparser.py by the shape matcher c30_regen.py (fail closed: a changed shape is a broken "
+        "obligation); the prefix of the pattern _r_extern_python and Python's \\s / \\w tables are hand models tied by the extpy stream",
+        "capi stream: AttributeError from lib/integer_const/addressof name look-ups and KeyError from offsetof() for a missing "
+        "field are the documented outcomes of those entry points and are accepted next to ffi.error/TypeError/ValueError",
         "reading: TypeError/ValueError raised by the back end while FFI.typeof() builds a well-formed but invalid type are "
         "accepted; exceptions raised inside pycparser count as violations of cdef()/typeof()"]
     evaluate(ctx, generate(ctx))
 
 
 MANIFEST = dict(
-    technique="Coq proof about the regenerated constant evaluator and the #define path with Python's implicit exceptions made "
-              "explicit + differential tie of the models + grammar-based and mutation fuzzing of cdef()/typeof() and of the C "
-              "type-string parser under ASan/UBSan",
+    technique="Coq proofs about the regenerated constant evaluator, the #define path, five stages of _preprocess (handler tuple "
+              "regenerated) and _preprocess_extern_python (facts regenerated), with Python's implicit exceptions and partial "
+              "indexing made explicit + differential ties of the models + grammar-based, truncation and mutation fuzzing of "
+              "cdef()/typeof() and of every type-string / name entry point of a compiled FFI under ASan/UBSan",
     text="Partial. Proved (all expression trees, all texts, all type strings): _parse_constant returns a value or raises only "
          "CDefError/FFIError (C30_evaluator_closed, on the text regenerated from cparser.py: shift-count guard, guarded int(), "
-         "division by zero); whatever _r_int_literal accepts _add_integer_constant converts, so '#define' raises only "
-         "CDefError (C30_macros_closed, C30_process_macro_closed); _preprocess raises only CDefError (C30_preprocess_closed: "
-         "replace() raises ValueError/IndexError and the handler catches exactly these); parse_c_type.c never accesses its "
-         "opcode buffer out of bounds, returns an in-range index or an error, and never reads past the terminating NUL "
-         "(C30_type_parser_*, imported from C07). Fuzzed, not proved: pycparser, the other paths of cparser.py, "
-         "ffi_obj.c/_ffi_type, realize_c_type.c.",
-    note="Trusted: Coq kernel; translator c09_regen.py; hand models tied by differential tests; ASan/UBSan as the detector "
-         "of out-of-bounds reads in parse_c_type.c; pycparser not modelled.",
+         "division by zero); whatever _r_int_literal accepts _add_integer_constant converts, so the modelled iteration of "
+         "_process_macros raises only CDefError (C30_macros_closed, C30_process_macro_closed; the FFIError of _add_constants "
+         "for a redefinition is not modelled); the FIVE MODELLED STAGES of _preprocess (white-space normalisation, line-"
+         "directive stashing, comments, #define, putting directives back) raise only CDefError (C30_preprocess_stages_closed), "
+         "the handler `except (ValueError, IndexError): raise CDefError` being regenerated into C30/Gen.v and proved equal to "
+         "the model's (C30_handler_regenerated, C30_replace_closed) -- NOT the whole _preprocess: the stdcall and '...' "
+         "rewriting stages with their asserts are fuzz-only; _preprocess_extern_python terminates and raises only CDefError/"
+         "NotImplementedError, never IndexError from csource[endpos] (C30_extern_python_closed, "
+         "C30_extern_python_terminates_no_index_error: model with partial indexing and fuel over regenerated facts -- the "
+         "pattern's trailing `.`, the `- 1`, the characters and the raised classes; any \\s/\\w); parse_c_type.c never accesses "
+         "its opcode buffer out of bounds, returns an in-range index or an error (or the model-only out-of-fuel outcome, not "
+         "excluded here) and never reads past the terminating NUL (C30_type_parser_*, imported from C07). Fuzzed, not proved: "
+         "pycparser, the other paths of cparser.py, ffi_obj.c/_ffi_type (incl. str -> char* conversion: capi stream), "
+         "lib_obj.c name look-ups, realize_c_type.c.",
+    note="Trusted: Coq kernel; translators c09_regen.py and c30_regen.py (shape matcher); hand models (literal scanner, "
+         "_r_int_literal, the prefix of _r_extern_python, \\s/\\w tables) tied by differential tests; ASan/UBSan as the detector of "
+         "out-of-bounds reads; process death attributed by re-running the single input; pycparser not modelled.",
     design_ref="DESIGN.md §4 C30")
